@@ -240,6 +240,7 @@ func (a *asm) push(v *big.Int) {
 	a.code = append(a.code, b...)
 }
 func (a *asm) pushN(n int64) { a.push(big.NewInt(n)) }
+func (a *asm) push32(v *big.Int) { a.code = append(a.code, push32(v)...) }
 func (a *asm) pushLabel(id int) {
 	a.code = append(a.code, 0x61, 0, 0)
 	a.fixups[id] = append(a.fixups[id], len(a.code)-2)
@@ -1064,5 +1065,236 @@ func main() {
 		}
 	}
 	lap("prog")
+	// ---- 7. per-op boundary lattices for the data-movement / control-flow opcodes ------------------------------------
+	// each case is a tiny directed program judged like section 6 (return data, gas left, stack digest); the op under test is
+	// counted under dop:<NAME>
+	emit := func(tag string, ep epoch, gas uint64, code, input []byte) {
+		line := fmt.Sprintf("prog %s %s %d %s %s", ep.name, ep.gt, gas, hx.Hex(code), hx.Hex(input))
+		run.Current(line)
+		out := hx.Safe(func() string {
+			tr := &tracer{keepStack: true}
+			ret, left, err := e.run(ep.cfg, 0, code, input, gas, tr)
+			digest := fmt.Sprintf("d%d:%s", tr.lastDepth, strings.Join(tr.lastStack, ","))
+			if err != nil {
+				if strings.Contains(err.Error(), "execution reverted") {
+					return fmt.Sprintf("revert %s %d %s", hx.Hex(ret), left, digest)
+				}
+				return "fail " + failClass(err)
+			}
+			return fmt.Sprintf("ok %s %d %s", hx.Hex(ret), left, digest)
+		})
+		run.Case(line, out)
+		run.Count("dop:" + tag + ":" + strings.Fields(out)[0])
+	}
+	ep0 := epochs[0]
+	offs := []*big.Int{big.NewInt(0), big.NewInt(1), big.NewInt(31), big.NewInt(32), big.NewInt(33), big.NewInt(63), big.NewInt(64), big.NewInt(65),
+		big.NewInt(1000), pow2(16), pow2(20), pow2(32), add(pow2(63), -1), add(pow2(64), -32), add(pow2(64), -1), pow2(64), add(pow2(64), 1), pow2(255), add(two256, -1)}
+	lens := []*big.Int{big.NewInt(0), big.NewInt(1), big.NewInt(31), big.NewInt(32), big.NewInt(33), big.NewInt(64), big.NewInt(100), pow2(16), add(pow2(64), -1), pow2(64), add(two256, -1)}
+	datas := [][]byte{nil, {0xaa}, rng.Bytes(31), rng.Bytes(32), rng.Bytes(33), rng.Bytes(64), rng.Bytes(70)}
+	retTail := func(a *asm, n int64) { a.pushN(n); a.pushN(0); a.op(0xf3) }
+	for _, d := range datas {
+		dl := int64(len(d))
+		cdOffs := append([]*big.Int{big.NewInt(dl - 1), big.NewInt(dl), big.NewInt(dl + 1), big.NewInt(dl - 32), big.NewInt(dl - 31)}, offs...)
+		for _, o := range cdOffs {
+			if o.Sign() < 0 {
+				continue
+			}
+			a := newAsm() // CALLDATALOAD
+			a.push(o)
+			a.op(0x35)
+			a.pushN(0)
+			a.op(0x52)
+			retTail(a, 32)
+			emit("CALLDATALOAD", ep0, 100000, a.finish(), d)
+			for _, l := range lens {
+				for _, mo := range []int64{0, 1, 33} {
+					a := newAsm() // CALLDATACOPY mo o l ; RETURN 0..160
+					a.push(l)
+					a.push(o)
+					a.pushN(mo)
+					a.op(0x37)
+					a.op(0x59) // MSIZE
+					retTail(a, 160)
+					emit("CALLDATACOPY", ep0, 100000, a.finish(), d)
+				}
+			}
+		}
+	}
+	for _, o := range offs {
+		for _, l := range lens {
+			a := newAsm() // CODECOPY 5 o l
+			a.push(l)
+			a.push(o)
+			a.pushN(5)
+			a.op(0x39)
+			a.op(0x38, 0x59)
+			retTail(a, 128)
+			emit("CODECOPY", ep0, 100000, a.finish(), nil)
+			a = newAsm() // SHA3 over freshly written memory
+			a.push(bi("0102030405060708090a0b0c0d0e0f101112131415161718191a1b1c1d1e1f20"))
+			a.pushN(7)
+			a.op(0x52)
+			a.push(l)
+			a.push(o)
+			a.op(0x20)
+			a.op(0x59)
+			emit("SHA3", ep0, 200000, a.finish(), nil)
+			for _, hop := range []byte{0xf3, 0xfd} { // RETURN / REVERT (o, l) after an MSTORE
+				a = newAsm()
+				a.push(add(two256, -7))
+				a.pushN(3)
+				a.op(0x52)
+				a.push(l)
+				a.push(o)
+				a.op(hop)
+				emit(map[byte]string{0xf3: "RETURN", 0xfd: "REVERT"}[hop], ep0, 100000, a.finish(), nil)
+			}
+			for _, mo := range []int64{0, 40} { // RETURNDATACOPY with the (empty) buffer of a frame that made no call
+				a = newAsm()
+				a.push(l)
+				a.push(o)
+				a.pushN(mo)
+				a.op(0x3e, 0x3d, 0x59)
+				emit("RETURNDATACOPY", ep0, 100000, a.finish(), nil)
+			}
+		}
+		for _, v := range []*big.Int{big.NewInt(0), big.NewInt(0x1ff), pow2(255), add(two256, -1), bi("0102030405060708090a0b0c0d0e0f101112131415161718191a1b1c1d1e1f20")} {
+			for _, g := range []uint64{100000, 2000000} {
+				a := newAsm() // MSTORE / MSTORE8 / MLOAD / MSIZE at offset o
+				a.push(v)
+				a.push(o)
+				a.op(0x52)
+				a.push(v)
+				a.push(add(o, 3))
+				a.op(0x53)
+				a.push(o)
+				a.op(0x51)
+				a.op(0x59)
+				a.pushN(0)
+				a.op(0x52)
+				retTail(a, 64)
+				emit("MSTORE/MSTORE8/MLOAD", ep0, g, a.finish(), nil)
+				a = newAsm()
+				a.push(o)
+				a.op(0x51, 0x59, 0x5a)
+				emit("MLOAD", ep0, g, a.finish(), nil)
+			}
+		}
+	}
+	for n := 1; n <= 16; n++ { // DUPn / SWAPn with exactly enough, one too few, and plenty of stack
+		for _, have := range []int{n - 1, n, n + 1, 20} {
+			for _, opb := range []byte{byte(0x7f + n), byte(0x8f + n)} {
+				a := newAsm()
+				for i := 0; i < have; i++ {
+					a.pushN(int64(100 + i))
+				}
+				a.op(opb)
+				a.pushN(0)
+				a.op(0x52)
+				retTail(a, 32)
+				name := "DUP"
+				if opb >= 0x90 {
+					name = "SWAP"
+				}
+				emit(name, ep0, 100000, a.finish(), nil)
+			}
+		}
+	}
+	for n := 1; n <= 32; n++ { // PUSHn complete, truncated by the end of the code, and followed by code
+		data := rng.Bytes(n)
+		data[0] |= 1
+		for _, k := range []int{0, 1, n / 2, n - 1, n} {
+			if k < 0 || k > n {
+				continue
+			}
+			code := append([]byte{byte(0x5f + n)}, data[:k]...)
+			emit("PUSH", ep0, 100000, code, nil)
+		}
+		a := newAsm()
+		a.op(byte(0x5f + n))
+		a.op(data...)
+		a.op(0x58, 0x50, 0x60, 0x00, 0x52)
+		retTail(a, 32)
+		emit("PUSH", ep0, 100000, a.finish(), nil)
+	}
+	for _, d := range append(offs, big.NewInt(4), big.NewInt(5), big.NewInt(36), big.NewInt(37), big.NewInt(38), big.NewInt(70)) { // JUMP / JUMPI / PC / JUMPDEST / GAS
+		for _, cond := range []*big.Int{nil, big.NewInt(0), big.NewInt(1), pow2(255)} {
+			a := newAsm()
+			if cond != nil {
+				a.push(cond)
+			}
+			a.push32(d) // keeps the layout independent of d
+			if cond != nil {
+				a.op(0x57)
+			} else {
+				a.op(0x56)
+			}
+			a.op(0x58, 0x5b, 0x7f) // PC JUMPDEST PUSH32 <31 bytes + a JUMPDEST inside the data> ...
+			for i := 0; i < 31; i++ {
+				a.op(0x5b)
+			}
+			a.op(0x5b, 0x5b, 0x58, 0x5a, 0x50, 0x60, 0x00, 0x52)
+			retTail(a, 32)
+			emit("JUMP/JUMPI/PC/JUMPDEST/GAS", ep0, 100000, a.finish(), nil)
+		}
+	}
+	for _, ep := range epochs[1:] { // a few of each in the other epochs (validity of REVERT / RETURNDATA* differs)
+		for _, opb := range []byte{0x3d, 0x3e, 0xfd, 0x35, 0x37, 0x39, 0x51, 0x52, 0x53, 0x56, 0x57, 0x58, 0x59, 0x5a, 0x5b, 0x50, 0x80, 0x90, 0x60, 0x7f, 0x20, 0xf3} {
+			a := newAsm()
+			a.pushN(0)
+			a.pushN(0)
+			a.pushN(0)
+			a.op(opb)
+			a.op(0x00)
+			emit("epochs", ep, 100000, a.finish(), []byte{1, 2, 3})
+		}
+	}
+	// RETURNDATACOPY with a non-empty return-data buffer and getDataBig, through the accessors
+	for _, rl := range []int{0, 1, 32, 33, 64} {
+		ret := rng.Bytes(rl)
+		for i := range ret {
+			ret[i] |= 1
+		}
+		dofs := append([]*big.Int{big.NewInt(int64(rl) - 1), big.NewInt(int64(rl)), big.NewInt(int64(rl) + 1)}, offs...)
+		for _, dof := range dofs {
+			if dof.Sign() < 0 {
+				continue
+			}
+			for _, l := range []*big.Int{big.NewInt(0), big.NewInt(1), big.NewInt(31), big.NewInt(32), big.NewInt(33), big.NewInt(int64(rl)), big.NewInt(64), add(pow2(64), -1), pow2(64), add(two256, -1)} {
+				for _, mo := range []int64{0, 5, 32} {
+					memLen := uint64(0)
+					if l.Sign() != 0 && l.IsUint64() && l.Uint64() < 4096 { // what the prologue would have grown the memory to
+						memLen = (uint64(mo) + l.Uint64() + 31) / 32 * 32
+					} else if l.Sign() != 0 {
+						continue // unpayable request: never reaches the instruction body
+					}
+					line := fmt.Sprintf("rdc %s %d %x %s %s", hx.Hex(ret), memLen, mo, hexb(dof), hexb(l))
+					run.Current(line)
+					run.Case(line, hx.Safe(func() string {
+						m, err := vm.VerifReturnDataCopy(ret, memLen, big.NewInt(mo), dof, l)
+						if err != nil {
+							if vm.VerifIsReturnDataOOB(err) {
+								return "oob"
+							}
+							return "err:" + err.Error()
+						}
+						return "ok " + hx.Hex(m)
+					}))
+					run.Count("rdc")
+				}
+			}
+		}
+		for _, st := range dofs {
+			if st.Sign() < 0 {
+				continue
+			}
+			for _, sz := range []int64{0, 1, 31, 32, 33, 64, 100} {
+				line := fmt.Sprintf("gdb %s %s %x", hx.Hex(ret), hexb(st), sz)
+				run.Case(line, hx.Hex(vm.VerifGetDataBig(ret, st, big.NewInt(sz))))
+				run.Count("gdb")
+			}
+		}
+	}
+	lap("dop")
 	run.Finish()
 }
